@@ -288,6 +288,13 @@ def judge_pair(x_spec, tname, entry):
         res[fname] = run_one(x_spec, tname, flags, entry)
     fails = []
     base = res["none"]
+    if tname.startswith("union:") or tname in ("data", "tuple2", "list", "dict"):
+        # flags spelled out as False are the same as flags not given (the staged resolution of unions merges option sets)
+        o = run_one(x_spec, tname, {"no_explicit_cast": False, "no_data_loss": False}, entry)
+        if o[0] in ("ok", "perr") and base[0] in ("ok", "perr") and not _unstable(_decode_for(x_spec, None, "plain"), o[1] if o[0] == "ok" else None):
+            same = o[0] == base[0] and (o[0] != "ok" or ((tname == "data" or type(o[1]) is type(base[1])) and oracle.equal(oracle.plain(o[1]), oracle.plain(base[1]))))
+            if not same:
+                fails.append((f"explicit-false-flags-differ-from-no-flags/{tname}", {"with_false_flags": oracle.short(o[1]), "without": oracle.short(base[1])}))
     info = {"accepted": {k: v[0] == "ok" for k, v in res.items()}}
     if any(v[0] in ("other", "hang") for v in res.values()):
         info["other"] = True
